@@ -8,9 +8,36 @@ from __future__ import annotations
 import numpy as np
 
 
-def build_workspace():
-    """A fresh pool of objects of every class, 2D and 3D, single and collection."""
-    import geometer as g
+def build_workspace(mode="int"):
+    """A fresh pool of objects of every class, 2D and 3D, single and collection.
+
+    mode "int": integer coordinates, points with last coordinate 1 (the fast paths of normalisation);
+    mode "float": the same objects given by float64 representatives with last coordinate 2 (points) resp. scaled by 1/2
+    (hyperplanes), so that every normalising code path has real work to do and no dtype conversion makes a protective copy."""
+    import geometer as _g
+
+    def _rescale(o, f):
+        if np.iscomplexobj(o.array):
+            return o
+        r = o.copy()
+        r.array = np.asarray(o.array, dtype=float) * f
+        return r
+
+    class _Scaled:
+        """geometer with point / hyperplane constructors that rescale their float representative"""
+
+        def __getattr__(self, name):
+            return getattr(_g, name)
+
+        Point = staticmethod(lambda *a, **k: _rescale(_g.Point(*a, **k), 2.0))
+        PointCollection = staticmethod(lambda *a, **k: _rescale(_g.PointCollection(*a, **k), 2.0))
+        Line = staticmethod(lambda *a, **k: _rescale(_g.Line(*a, **k), 0.5))
+        LineCollection = staticmethod(lambda *a, **k: _rescale(_g.LineCollection(*a, **k), 0.5))
+        Plane = staticmethod(lambda *a, **k: _rescale(_g.Plane(*a, **k), 0.5))
+        PlaneCollection = staticmethod(lambda *a, **k: _rescale(_g.PlaneCollection(*a, **k), 0.5))
+
+    g = _g if mode == "int" else _Scaled()
+    arr = (lambda x: np.array(x)) if mode == "int" else (lambda x: np.array(x, dtype=float) * 2.0)
 
     w = {}
     # --- plane
@@ -26,12 +53,12 @@ def build_workspace():
     w["k"] = g.Line(0, 1, -2)
     w["lc"] = g.LineCollection([(1, 2, -3), (0, 1, -2), (1, 0, 1)])
     w["seg"] = g.Segment(g.Point(0, 2), g.Point(2, 0))
-    w["segc"] = g.SegmentCollection(np.array([[[0, 0, 1], [2, 1, 1]], [[1, 1, 1], [3, 1, 1]]]))
+    w["segc"] = g.SegmentCollection(arr([[[0, 0, 1], [2, 1, 1]], [[1, 1, 1], [3, 1, 1]]]))
     w["poly"] = g.Polygon(g.Point(0, 0), g.Point(3, 0), g.Point(3, 3), g.Point(1, 1), g.Point(0, 3))
     w["tri"] = g.Triangle(g.Point(0, 0), g.Point(4, 0), g.Point(0, 3))
     w["rect"] = g.Rectangle(g.Point(0, 0), g.Point(2, 0), g.Point(2, 1), g.Point(0, 1))
     w["rpoly"] = g.RegularPolygon(g.Point(1, 1), 2, 5)
-    w["polyc"] = g.PolygonCollection(np.array([[[0, 0, 1], [2, 0, 1], [2, 2, 1], [0, 2, 1]], [[1, 1, 1], [4, 1, 1], [4, 3, 1], [1, 3, 1]]]))
+    w["polyc"] = g.PolygonCollection(arr([[[0, 0, 1], [2, 0, 1], [2, 2, 1], [0, 2, 1]], [[1, 1, 1], [4, 1, 1], [4, 3, 1], [1, 3, 1]]]))
     w["conic"] = g.Conic.from_points(g.Point(1, 0), g.Point(0, 1), g.Point(-1, 0), g.Point(0, -2), g.Point(2, 2))
     w["circle"] = g.Circle(g.Point(1, 2), 2)
     w["ell"] = g.Ellipse(g.Point(0, 1), 3, 2)
@@ -56,7 +83,7 @@ def build_workspace():
     w["EC"] = g.PlaneCollection([(1, 0, -1, 2), (0, 1, 1, -1), (1, 1, 1, -3)])
     w["seg3"] = g.Segment(g.Point(0, 0, 0), g.Point(1, 2, 2))
     w["poly3"] = g.Polygon(g.Point(0, 0, 1), g.Point(2, 0, 1), g.Point(2, 2, 3), g.Point(0, 2, 3))
-    w["polyc3"] = g.PolygonCollection(np.array([[[0, 0, 1, 1], [2, 0, 1, 1], [2, 2, 3, 1], [0, 2, 3, 1]],
+    w["polyc3"] = g.PolygonCollection(arr([[[0, 0, 1, 1], [2, 0, 1, 1], [2, 2, 3, 1], [0, 2, 3, 1]],
                                                 [[0, 0, 0, 1], [1, 0, 0, 1], [1, 1, 0, 1], [0, 1, 0, 1]]]))
     w["tri3"] = g.Triangle(g.Point(1, 0, 0), g.Point(0, 1, 0), g.Point(0, 0, 1))
     w["cube"] = g.Cuboid(g.Point(0, 0, 0), g.Point(2, 0, 0), g.Point(0, 1, 0), g.Point(0, 0, 3))
